@@ -7,6 +7,7 @@ THEOREMS = [
     "Pedal.SandboxExec.c05_ladder_balanced",
     "Pedal.SandboxExec.c05_import_transparent",
     "Pedal.SandboxExec.c05_probe_restores",
+    "Pedal.SandboxExec.c05_probe_thread_independent",
     "Pedal.SandboxExec.c05_restored_after_execute",
     "Pedal.SandboxExec.c05_restored_after_op",
     "Pedal.SandboxExec.c05_discharges_c04_hypothesis",
@@ -59,6 +60,15 @@ NOTES = [
     "That case is a SEARCH-ONLY stream: a failure is injected into each of those steps for every way an execution "
     "ends x every tracer style x run/call/import, judged by the snapshot oracle of the statement (the failure may "
     "propagate; the borrowed globals and both stacks must be as before)",
+    "the THREAD the grader runs on is not in the model. mockProbe (the start/stop probe behind c05_probe_restores, a "
+    "hypothesis of every theorem) is measured on the main thread and repeated on a plain threading.Thread, a pool "
+    "worker, a thread `threading` did not start and a Timer (c05_probe_thread_independent: all agree and restore); "
+    "that whole executions restore everything there too - every ending x "
+    "entry point x threaded mode, nested executions - is SAMPLED by the histories carrying `on` and judged by the "
+    "snapshot oracle on that thread (the trace function is per thread: installed, and compared, on the thread the "
+    "history runs on). GATED (fails on the unchanged tree, reported): the grader inside pedal's own timeout(), and an "
+    "execution with threaded=False nested in a threaded one - both finish on an InterruptableThread and take its "
+    "one-shot finish claim",
     "sizes (inputs consumed, output printed, traceback depth, message / argument / source length) and the report's "
     "formatter are not in the model; sampled by the size sweep shared with C04 (sandboxexec_sizes.py)",
 ]
